@@ -1362,7 +1362,10 @@ class BinaryOperator(SymbolicExpression, ABC):
             for conc in self._conclusion_:
                 required_vars.update(conc._unique_variables_)
         if self._parent_:
-            required_vars.update(self._parent_._required_variables_from_child_(self, when_true))
+            # A true left operand does not decide the truth of this operator, so what the parent requires in
+            # either case is required from the left operand.
+            when_i_am_true = None if child is self.left else when_true
+            required_vars.update(self._parent_._required_variables_from_child_(self, when_i_am_true))
         return required_vars
 
 
